@@ -901,7 +901,7 @@ func mentionsLenOf(v ssa.Value, s ssa.Value, d int) bool {
 
 func init() {
 	register("C09", &propDef{
-		explain: "Guard-placement rules decided on code shape: the deadline test is the first effect of every evaluation step and sleep waits on the state's context; the depth guard brackets evalInternal inside Eval and function bodies go through Eval; every other recursive cycle reachable from program text is enumerated (they are bounded only by source/data nesting: known findings; a new one is a violation); Go loops whose trip count a program chooses re-enter the evaluator each iteration or are bounded by a size that passed the memory guard; program-sized allocations, string concatenation and repetition are dominated by the guard, guarded products are overflow-checked and SizeOk rejects negative sizes; EvalOne recovers, resets and installs a per-input deadline. Wall-clock and RSS numbers are not decided. Also: object.FreeMemory computes its result from a SetMemoryLimit(-1) query and a ReadMemStats reading made by that call, never from memoised package-level state.",
+		explain: "Guard-placement rules decided on code shape: the deadline test is the first effect of every evaluation step and sleep waits on the state's context; the depth guard brackets evalInternal inside Eval and function bodies go through Eval; every other recursive cycle reachable from program text is enumerated (they are bounded only by source/data nesting: known findings; a new one is a violation); Go loops whose trip count a program chooses re-enter the evaluator each iteration or are bounded by a size that passed the memory guard; program-sized allocations, string concatenation and repetition are dominated by the guard, guarded products are overflow-checked and SizeOk rejects negative sizes; EvalOne recovers, resets and installs a per-input deadline. Wall-clock and RSS numbers are not decided. Also: object.FreeMemory computes its result from a SetMemoryLimit(-1) query and a ReadMemStats reading made by that call, never from memoised package-level state. Also: strings.Join guards include the separator; library calls whose result is not linear in one operand (regexp ReplaceAll*, strings.Replace*, Sprintf with a program-chosen format) are dominated by a guard computed from their operands; a state created next to a running one inherits its Context.",
 		assume:  []string{"the Go runtime honours GOMEMLIMIT approximately; the guard's adequacy as a number (256-object free pass, ObjectSize) is not judged", "allocations proportional to data that already exists (copies, Modify, JSON) are not obligations"},
 		run:     runC09,
 	})
